@@ -9,9 +9,12 @@ import GocoinV.Proofs.C04Witness
 import GocoinV.Proofs.C04Sums
 import GocoinV.Proofs.C04NoDouble
 import GocoinV.Proofs.C04Checks
+import GocoinV.Proofs.C04Final
+import GocoinV.Proofs.C04Cost
+import GocoinV.Proofs.C04Wf
 namespace GocoinV.Props.C04
 open GocoinV GocoinV.Connect GocoinV.Proofs.C04
-open GocoinV.Spec.Connect (connectBlock absList absGet isOk failsWith subsidy)
+open GocoinV.Spec.Connect (connectBlock absList absGet isOk failsWith subsidy seqLockOk Coin)
 
 /-- The block reward of the code is the subsidy schedule: 50 BTC divided by 2^(height / 210000) (integer division),
     and it is 0 from the 64th halving on (where a C `>>` would be undefined and Go's gives 0). -/
@@ -122,37 +125,155 @@ theorem sums_wrap_orig_counterexample :
   refine ⟨_, rfl, ?_⟩
   decide
 
-/-! ### `connect_sound` is FALSE of the code: four concrete witnesses
+/-! ### `connect_sound`: the refinement, and why each exclusion is there
 
   connect_sound (the central statement):
      connect cfg db b = .ok (db', _)  →  connectBlock (abs db) b = .ok u' ∧ ∀ op, get u' op = absGet db' op
-  Each theorem below exhibits a set and a block that the model of the code connects while the specification
-  refuses the block.  The first two are about `Cfg.orig` (the pinned snapshot); the corresponding `fix:` commits
-  are in /repo and the same witnesses are refused by `Cfg.current`.  The last two hold for the current code and
-  are recorded as known findings. -/
+  It is proved below for `Cfg.current` under named hypotheses.  Without them it is FALSE of the code: the four
+  `…_counterexample_…` theorems after it exhibit a set and a block that the model of the code connects while the
+  specification refuses the block.  The first two are about `Cfg.orig` (the pinned snapshot); the corresponding
+  `fix:` commits are in /repo and the same witnesses are refused by `Cfg.current`.  The last two hold for the
+  current code, are recorded as known findings, and are exactly what `hseq` / `hret` exclude. -/
 
-/-
-  -- OPEN: connect_sound (central theorem, NOT proved):
-  --   theorem connect_sound (db : DB) (b : Block) (db' : DB) (so : Nat) (mtpOf : Nat → Nat)
-  --       (hids  : (b.txs.map (·.txid)).Nodup)                                     -- txids of the block differ
-  --       (hbip30: ∀ tx ∈ b.txs, ∀ kr ∈ db, key8 kr.2.txid ≠ key8 tx.txid)          -- BIP30 / no 8-byte key collision
-  --       (hkeys : the 8-byte keys of the block's txids are pairwise different)
-  --       (hseq  : b.csv = false ∨ ∀ tx ∈ b.txs, tx.version < 2 ∨ all inputs have the BIP68 disable bit)   -- F3c excluded
-  --       (hret  : no script of the block contains OP_RETURN before a sigop)       -- F3d excluded
-  --       (h : connect Cfg.current db b = .ok (db', so)) :
-  --       ∃ u', connectBlock (absList mtpOf db) b = .ok u' ∧ ∀ op, aGet u' op = absGet mtpOf db' op
-  -- What is proved of it is `connect_sound_partial` below (amount and double-spend part) together with
-  -- `subsidy_halving`, `sums_no_wrap*`, `no_double_spend_in_block`; what is missing is the simulation of the coin
-  -- lookups (UnspentGet / blUnsp against the sequential map), maturity, script flags, sigop-cost equality and the
-  -- equality of the resulting sets.  The differential run of go/cmd/c04 stands in for that part.
--/
+/-- **connect_sound** (central theorem). If the current code's block connection (`CheckBlock`'s transaction part +
+    `commitTxs` + `UnspentDB.commit`, as modelled by `connect Cfg.current`) accepts a block on top of the record map
+    `db`, then Bitcoin's sequential `connectBlock` accepts the same block on the abstract coin map of `db`, and the
+    coin map it returns is, outpoint for outpoint, the abstraction of the new record map `db'`: every input named
+    a coin that existed and was unspent at that point of the block, coinbase coins were 100 deep, every script
+    verdict was true, all amounts in range, inputs cover outputs, coinbase ≤ subsidy + fees, consensus sigop cost
+    ≤ 80000, and the resulting set is the right one.  Hypotheses, each named:
+      * `hwf`      representation invariant of UnspentDB.HashMap: records filed under the key of their txid, keys unique;
+      * `hinj`     **hash-prefix injectivity inside the block**: the 8-byte keys of the block's txids are pairwise
+                   different (otherwise `do_add` overwrites one new record by another — see
+                   `connect_sound_needs_prefix_injectivity`);
+      * `hbip30`   **hash-prefix injectivity block vs set** (this includes BIP30): no record of the set lives under the
+                   8-byte key of a txid of the block;
+      * `hseq`     exclusion of known finding F3c (BIP68 is not evaluated by the code), stated exactly: with CSV active,
+                   every input of a version ≥ 2 transaction satisfies its relative lock against the coin it spends —
+                   the confirmed coin of that outpoint, or a coin created in this very block (inputs with the
+                   disable bit satisfy it outright: `seqlock_disabled_ok`);
+      * `hret`     exclusion of known finding F3d, stated exactly: on every script a sigop counter reads, `GetSigOpCount`
+                   (which stops at OP_RETURN) equals the consensus count; scripts without OP_RETURN, and the usual
+                   `OP_RETURN <pushes>` carriers, satisfy it (`opreturn_free_counts_agree`);
+      * `hheights`, `hb` chain invariant: no record is higher than the block, heights fit uint32 (maturity uses uint32 subtraction);
+      * `hmtp`     the chain context `mtpOf` gives the block's own median-time-past for its height;
+      * `hsize`, `hbytes` size facts that CheckBlock's weight limit (property C05) provides: `NoWitSize*4` does not wrap
+                   uint32, and the scripts of the block have at most 4,000,000 bytes (so the uint32 sigop accumulator
+                   cannot wrap). -/
+theorem connect_sound (db : DB) (b : Block) (db' : DB) (so : Nat) (mtpOf : Nat → Nat)
+    (hwf : WF db)
+    (hinj : ((b.txs.map (·.txid)).map key8).Nodup)
+    (hbip30 : ∀ tx ∈ b.txs, ∀ kr ∈ db, key8 kr.2.txid ≠ key8 tx.txid)
+    (hseq : b.csv = true → ∀ tx ∈ b.txs, 2 ≤ tx.version → ∀ i ∈ tx.ins, ∀ c : Coin,
+        (absGet mtpOf db i.prev = some c ∨ (absGet mtpOf db i.prev = none ∧ c.height = b.height ∧ c.mtpPrev = b.mtp)) → seqLockOk b.height b.mtp i c = true)
+    (hret : ∀ tx ∈ b.txs, txCountsAgree tx = true)
+    (hheights : ∀ kr ∈ db, kr.2.height ≤ b.height) (hb : b.height < 2 ^ 32)
+    (hmtp : mtpOf b.height = b.mtp)
+    (hsize : ∀ tx ∈ b.txs, tx.noWitSize * 4 < 2 ^ 32)
+    (hbytes : blockScriptBytes b ≤ 4000000)
+    (h : connect Cfg.current db b = .ok (db', so)) :
+    ∃ u', connectBlock (absList mtpOf db) b = .ok u' ∧ ∀ op, aGet u' op = absGet mtpOf db' op := by
+  have hfree : ∀ tx ∈ b.txs, aGet db (key8 tx.txid) = none := by
+    intro tx htx
+    apply (aGet_none_iff db _).mpr
+    intro hk
+    obtain ⟨kr, hkr, e⟩ := List.mem_map.mp hk
+    exact hbip30 tx htx kr hkr (by rw [← hwf.filed kr hkr, e])
+  have hh : ∀ k r, aGet db k = some r → r.height ≤ b.height :=
+    fun k r hg => hheights (k, r) (aGet_mem db k r hg)
+  refine connect_sound_core mtpOf db b db' so hwf hinj hfree hseq hret hh hb hmtp hsize ?_ h
+  intro cb rest a ht ha
+  have h1 := connectTxs_sigops b rest _ a ha
+  have h2 := legacy_le cb
+  have h3 : blockScriptBytes b = txScriptBytes cb + (rest.map txScriptBytes).sum := by
+    unfold blockScriptBytes; rw [ht]; simp
+  simp only [] at h1
+  omega
 
-/-- The proved part of `connect_sound`: when the current code connects a block whose txids differ, then commitTxs
+/-- non-vacuity: a state and a block with a version-2 transaction whose relative height lock (1 block) IS satisfied
+    meet every hypothesis of `connect_sound`, and the code connects the block -/
+example : ∃ (db : DB) (b : Block) (mtpOf : Nat → Nat), WF db ∧ ((b.txs.map (·.txid)).map key8).Nodup
+    ∧ (∀ tx ∈ b.txs, ∀ kr ∈ db, key8 kr.2.txid ≠ key8 tx.txid)
+    ∧ (b.csv = true → ∀ tx ∈ b.txs, 2 ≤ tx.version → ∀ i ∈ tx.ins, ∀ c : Coin,
+        (absGet mtpOf db i.prev = some c ∨ (absGet mtpOf db i.prev = none ∧ c.height = b.height ∧ c.mtpPrev = b.mtp)) → seqLockOk b.height b.mtp i c = true)
+    ∧ (∀ tx ∈ b.txs, txCountsAgree tx = true) ∧ (∀ kr ∈ db, kr.2.height ≤ b.height) ∧ b.height < 2 ^ 32
+    ∧ mtpOf b.height = b.mtp ∧ (∀ tx ∈ b.txs, tx.noWitSize * 4 < 2 ^ 32) ∧ blockScriptBytes b ≤ 4000000
+    ∧ isOk (connect Cfg.current db b) = true := by
+  refine ⟨W.db0, W.blockLockOk, fun _ => 1990000, ⟨by decide, by decide⟩, by decide, by decide, ?_, by decide, by decide,
+    by decide, rfl, by decide, by decide, by decide⟩
+  intro _ tx htx hv i hi c hc
+  simp only [W.blockLockOk, W.blk, List.mem_cons, List.not_mem_nil, or_false] at htx
+  rcases htx with e | e
+  · subst e; simp [W.cbTx] at hv
+  · subst e
+    simp only [W.spend, List.mem_cons, List.not_mem_nil, or_false] at hi
+    subst hi
+    have h0 : absGet (fun _ => 1990000) W.db0 ⟨W.h1, 0⟩ = some ⟨1000, [0x51], 150, false, 1990000⟩ := by decide
+    rcases hc with hc | hc
+    · have : c = ⟨1000, [0x51], 150, false, 1990000⟩ := by
+        simp only [W.spend] at hc
+        rw [h0] at hc
+        exact (Option.some.inj hc).symm
+      subst this
+      decide
+    · have := hc.1
+      simp only [W.spend] at this
+      rw [h0] at this
+      cases this
+
+/-- An input whose sequence number has the BIP68 disable bit (bit 31) set satisfies `hseq` for every coin. -/
+theorem seqlock_disabled_ok (height mtp : Nat) (inp : TxIn) (c : Coin) (h : inp.sequence / 2 ^ 31 % 2 = 1) :
+    seqLockOk height mtp inp c = true := by
+  unfold seqLockOk
+  simp [Spec.Connect.SEQ_DISABLE, h]
+
+example : (0xffffffff : Nat) / 2 ^ 31 % 2 = 1 := by decide
+
+/-- A script in which the tokeniser meets no OP_RETURN satisfies `hret`'s condition: gocoin's counter and the consensus
+    counter agree on it (in both accuracy modes). -/
+theorem opreturn_free_counts_agree (scr : Bytes) (h : opReturnFree scr = true) : countsAgree scr = true :=
+  countsAgree_of_opReturnFree scr h
+
+example : opReturnFree [0x76, 0xa9, 0xac] = true ∧ countsAgree [0x6a, 0x02, 0xac, 0xac] = true
+    ∧ countsAgree [0x6a, 0xac] = false := by decide
+
+/-- `hwf` and `hheights` of `connect_sound` are invariants of the reachable states, not assumptions about them: the empty
+    map satisfies them, and whenever the code connects a block on a map that satisfies them (for the block's height),
+    the new map satisfies them again — so they hold for the next block at any height ≥ this one. -/
+theorem connect_keeps_invariants (db : DB) (b : Block) (db' : DB) (so : Nat)
+    (hwf : WF db) (hheights : ∀ kr ∈ db, kr.2.height ≤ b.height)
+    (h : connect Cfg.current db b = .ok (db', so)) :
+    (WF ([] : DB) ∧ ∀ kr ∈ ([] : DB), kr.2.height ≤ 0) ∧ WF db' ∧ ∀ kr ∈ db', kr.2.height ≤ b.height := by
+  refine ⟨⟨⟨by simp, by simp [keys]⟩, by simp⟩, ?_⟩
+  unfold connect at h
+  cases hc : checkBlockTxs Cfg.current b with
+  | error e => simp [hc, bind, Except.bind] at h
+  | ok _ =>
+    cases hs : commitTxs Cfg.current db b with
+    | error e => simp [hc, hs, bind, Except.bind] at h
+    | ok s =>
+      simp only [hc, hs, bind, Except.bind, pure, Except.pure, Except.ok.injEq, Prod.mk.injEq] at h
+      rw [← h.1]
+      exact Good_applyChanges db b s ⟨hwf, hheights⟩
+
+example : WF W.db0 ∧ (∀ kr ∈ W.db0, kr.2.height ≤ W.blockOk.height) ∧ isOk (connect Cfg.current W.db0 W.blockOk) = true :=
+  ⟨⟨by decide, by decide⟩, by decide, by decide⟩
+
+/-- Why `hinj` is there (an assumption, not a finding: the witness needs two txids with equal first 8 bytes, i.e. a
+    2^32-work birthday collision on SHA-256d, which the check cannot and does not construct): on a model state with
+    CHOSEN txids `W.idA`, `W.idB` sharing 8 bytes, the code connects the block and so does the specification, but
+    `do_add` files B's record over A's, and the still-unspent coin (A,1) is gone from the new set. -/
+theorem connect_sound_needs_prefix_injectivity :
+    ∃ db' so u', connect Cfg.current W.db0 W.blockClash = .ok (db', so)
+      ∧ connectBlock (absList W.mtp0 W.db0) W.blockClash = .ok u'
+      ∧ (aGet u' ⟨W.idA, 1⟩).isSome = true ∧ absGet W.mtp0 db' ⟨W.idA, 1⟩ = none := by
+  refine ⟨_, _, _, rfl, rfl, by decide, by decide⟩
+
+/-- Facts about an accepted block that need none of `connect_sound`'s hypotheses except distinct txids: when the current code connects a block whose txids differ, then commitTxs
     succeeded with locals `s`, the new set is `applyChanges` of those locals, no outpoint is named twice by the
     block's inputs, the coinbase claims at most subsidy(height) + fees in exact arithmetic with fees ≤ MAX_MONEY,
     and the (gocoin-counted) sigop cost is at most 80000.
-    Missing (see the OPEN statement above): existence/maturity of each spent coin in the abstract map, scripts,
-    consensus sigop cost, BIP68, equality of the resulting abstract set. -/
+    (The full refinement is `connect_sound` above.) -/
 theorem connect_sound_partial (db : DB) (b : Block) (db' : DB) (so : Nat)
     (hids : (b.txs.map (·.txid)).Nodup) (h : connect Cfg.current db b = .ok (db', so)) :
     ∃ s, commitTxs Cfg.current db b = .ok s ∧ db' = applyChanges Cfg.current db b s ∧ so = s.sigops
